@@ -13,7 +13,7 @@
     KlongContext.__setitem__ / __getitem__       -> `set` / `lookup`
     np.asarray(x, dtype=float) [pinned]          -> `asF64 .pinned`  (NO copy for float64 array / float64 tensor buffer)
     np.array(x, dtype=float)   [repaired, fix:]  -> `asF64 .repaired` (always a private copy)
-    x.copy(), np.asarray(..).flatten()           -> `copyOf`, `flattenF64` (always fresh)
+    x.copy(), np.asarray(..).flatten(), .reshape -> `copyOf`, `flattenF64` (always fresh; probes keep the point's shape)
     x[idx] = orig ± eps ; x[idx] = orig          -> `writeAt`
     numeric_grad                                 -> `numericGrad` / `gradLoop`
     numeric_jacobian                             -> `jacNumeric` / `jacLoop`
@@ -200,13 +200,17 @@ def asF64 (v : Variant) (s : St) : Bind → Option (St × Ref)
       if v = .pinned ∧ (c.kind = .f64 ∨ c.kind = .t64) then some (s, r)
       else some (alloc s { kind := .f64, shape := c.shape, data := c.data })
 
-/-- `np.asarray(x, dtype=float64).flatten()` — flatten always copies -/
+/-- `x = np.asarray(x, dtype=float64); shape = x.shape; x = x.flatten()` — flatten always copies.
+    The working copy is walked flat, but every probe handed to the function is
+    `copy.reshape(shape)` (main 331d75e: a scalar point stays 0-d, a matrix keeps its shape), and
+    the working copy itself is never seen by anyone: it is recorded with the point's shape, so
+    that `copyOf` / `copyPerturbed` yield exactly the reshaped probes. -/
 def flattenF64 (s : St) : Bind → Option (St × Ref)
   | .sym _ => none
   | .ref r =>
     match s.heap[r]? with
     | none => none
-    | some c => some (alloc s { kind := .f64, shape := [c.data.length], data := c.data })
+    | some c => some (alloc s { kind := .f64, shape := c.shape, data := c.data })
 
 /-- `create_grad_tensor`: a fresh float32 tensor with requires_grad -/
 def gradTensor (s : St) : Bind → Option (St × Ref)
